@@ -159,6 +159,10 @@ def run(ck, F):
     # can land in one slot and which of them is read depends on the order of registration / directory enumeration
     from rules import c11 as C11
     C11.rule_verbatim_keys(ck, F, "R4")
+    # .. and which sibling files are registered does not depend on the order in which the directory lists them (shared with C11.R4)
+    ub_ = F.lib.body("utils::read_input_file_and_xsd_files_at_path")
+    if ub_ is not None:
+        C11.rule_all_siblings_visited(ck, F, ub_, "R4")
 
 
 def flag_loads(F):
